@@ -209,6 +209,290 @@ for rn in ROUT:
         die("%s: block-wise loop without offset_x loop" % rn)
     loop_shape.append((rn, bw > 0))
 
+# ---- the in-block loops: a small interpreter for the C statements that move the 64 coefficients
+TOK = re.compile(r"\s*(\+\+|\+=|<=|==|[A-Za-z_]\w*|\d+|[-+*<=(){}\[\];,])")
+
+
+def tokenize(text):
+    out, pos = [], 0
+    text = text.strip()
+    while pos < len(text):
+        mm = TOK.match(text, pos)
+        if not mm:
+            die("in-block loop: cannot tokenize near '%s'" % text[pos:pos + 30])
+        out.append(mm.group(1))
+        pos = mm.end()
+    return out
+
+
+class Interp:
+    """executes one in-block loop statement; state: integer variables, pointer offsets, temporaries"""
+
+    def __init__(self, toks, rn):
+        self.t, self.p, self.rn = toks, 0, rn
+        self.env = {"DCTSIZE": 8, "DCTSIZE2": 64}
+        self.ptr = {"dst_ptr": 0, "src_ptr": 0, "ptr1": 0, "ptr2": 0}
+        self.tmp = {}
+        self.writes = []          # (target pointer, dst index, source pointer, src index, negated)
+        self.steps = 0
+
+    def fail(self, msg):
+        die("%s: in-block loop: %s near '%s'" % (self.rn, msg, " ".join(self.t[self.p:self.p + 8])))
+
+    def peek(self):
+        return self.t[self.p] if self.p < len(self.t) else None
+
+    def eat(self, x=None):
+        tk = self.peek()
+        if tk is None or (x is not None and tk != x):
+            self.fail("expected '%s'" % x)
+        self.p += 1
+        return tk
+
+    # ---- skipping (to re-execute loop bodies we remember token positions)
+    def skip_stmt(self):
+        if self.peek() == "{":
+            depth = 0
+            while True:
+                tk = self.eat()
+                if tk == "{":
+                    depth += 1
+                elif tk == "}":
+                    depth -= 1
+                    if depth == 0:
+                        return
+        if self.peek() == "for":
+            self.eat("for")
+            self.eat("(")
+            depth = 1
+            while depth:
+                tk = self.eat()
+                depth += (tk == "(") - (tk == ")")
+            return self.skip_stmt()
+        while self.eat() != ";":
+            pass
+
+    # ---- integer expressions over i, j, k, DCTSIZE
+    def atom(self):
+        tk = self.eat()
+        if tk == "(":
+            v = self.expr()
+            self.eat(")")
+            return v
+        if tk.isdigit():
+            return int(tk)
+        if tk in self.env:
+            return self.env[tk]
+        self.fail("unknown identifier '%s' in an index expression" % tk)
+
+    def term(self):
+        v = self.atom()
+        while self.peek() == "*":
+            self.eat()
+            v *= self.atom()
+        return v
+
+    def expr(self):
+        v = self.term()
+        while self.peek() in ("+", "-"):
+            v = v + self.term() if self.eat() == "+" else v - self.term()
+        return v
+
+    # ---- values: *p, *p++, p[e], temp, with optional sign / parentheses
+    def value(self):
+        neg = False
+        if self.peek() == "-":
+            self.eat()
+            neg = True
+        if self.peek() == "(":
+            self.eat()
+            src, idx, n2 = self.value()
+            self.eat(")")
+            return src, idx, neg != n2
+        if self.peek() == "*":
+            self.eat()
+            pn = self.eat()
+            if pn not in self.ptr:
+                self.fail("read through unknown pointer '%s'" % pn)
+            idx = self.ptr[pn]
+            if self.peek() == "++":
+                self.eat()
+                self.ptr[pn] += 1
+            return pn, idx, neg
+        name = self.eat()
+        if name in self.tmp:
+            src, idx, n2 = self.tmp[name]
+            return src, idx, neg != n2
+        if name in self.ptr and self.peek() == "[":
+            self.eat("[")
+            idx = self.expr()
+            self.eat("]")
+            return name, idx, neg
+        self.fail("unrecognised right-hand side '%s'" % name)
+
+    def stmt(self):
+        self.steps += 1
+        if self.steps > 100000:
+            self.fail("loop does not terminate")
+        tk = self.peek()
+        if tk == "{":
+            self.eat()
+            while self.peek() != "}":
+                self.stmt()
+            self.eat("}")
+        elif tk == "for":
+            self.eat()
+            self.eat("(")
+            var = self.eat()
+            self.eat("=")
+            self.env[var] = self.expr()
+            self.eat(";")
+            cond = self.p
+            while self.eat() != ";":
+                pass
+            step = self.p
+            depth = 1
+            while depth:
+                t2 = self.eat()
+                depth += (t2 == "(") - (t2 == ")")
+            body = self.p
+            self.skip_stmt()
+            end = self.p
+            while True:
+                self.p = cond
+                a = self.expr()
+                if self.eat() != "<":
+                    self.fail("loop condition is not '<'")
+                b = self.expr()
+                if not a < b:
+                    break
+                self.p = body
+                self.stmt()
+                self.p = step
+                v = self.eat()
+                if v not in self.env:
+                    self.fail("loop step on unknown variable")
+                o = self.eat()
+                if o == "++":
+                    self.env[v] += 1
+                elif o == "+=":
+                    self.env[v] += self.expr()
+                else:
+                    self.fail("unknown loop step")
+            self.p = end
+        elif tk == "*":                      # *p++ = value;
+            self.eat()
+            pn = self.eat()
+            if pn not in self.ptr:
+                self.fail("write through unknown pointer")
+            idx = self.ptr[pn]
+            if self.peek() == "++":
+                self.eat()
+                self.ptr[pn] += 1
+            self.eat("=")
+            src, si, neg = self.value()
+            self.eat(";")
+            self.writes.append((pn, idx, src, si, neg))
+        elif tk in self.ptr and self.t[self.p + 1] == "[":     # p[e] = value;
+            pn = self.eat()
+            self.eat("[")
+            idx = self.expr()
+            self.eat("]")
+            self.eat("=")
+            src, si, neg = self.value()
+            self.eat(";")
+            self.writes.append((pn, idx, src, si, neg))
+        elif tk in ("i", "j", "k") and self.t[self.p + 1] == "++":
+            self.env[self.eat()] += 1
+            self.eat("++")
+            self.eat(";")
+        elif tk in ("temp1", "temp2"):
+            name = self.eat()
+            self.eat("=")
+            self.tmp[name] = self.value()
+            self.eat(";")
+        else:
+            self.fail("unrecognised statement")
+
+
+def stmt_after(bd, start):
+    """text of the statement starting at bd[start:] (a for statement, possibly braced)"""
+    i = start
+    depth = 0
+    seen_paren = False
+    while i < len(bd):
+        ch = bd[i]
+        if ch == "(":
+            depth += 1
+        elif ch == ")":
+            depth -= 1
+            if depth == 0:
+                seen_paren = True
+                break
+        i += 1
+    # body: next non-space char
+    j = i + 1
+    while bd[j].isspace():
+        j += 1
+    if bd[j] == "{":
+        d = 0
+        while True:
+            if bd[j] == "{":
+                d += 1
+            elif bd[j] == "}":
+                d -= 1
+                if d == 0:
+                    return bd[start:j + 1]
+            j += 1
+    if bd.startswith("for", j):
+        inner = stmt_after(bd, j)
+        return bd[start:j] + inner
+    k = bd.index(";", j)
+    return bd[start:k + 1]
+
+
+inblock = []
+INBLOCK_ROUTINES = ["do_flip_h", "do_flip_v", "do_transpose", "do_rot_90", "do_rot_270", "do_rot_180", "do_transverse"]
+for rn in INBLOCK_ROUTINES:
+    bd = func_body(transupp_c, rn)
+    lists = []
+    for mm in re.finditer(r"\bsrc_ptr\s*=[^;]*;\s*(?=for\b)", bd):
+        st = stmt_after(bd, mm.end())
+        it = Interp(tokenize(st), rn)
+        it.stmt()
+        if it.p != len(it.t):
+            die("%s: trailing tokens after an in-block loop" % rn)
+        ws = it.writes
+        if any(w[0] != "dst_ptr" or w[2] != "src_ptr" for w in ws) or not ws:
+            die("%s: in-block loop writes/reads through an unexpected pointer" % rn)
+        if any(not (0 <= w[1] < 64 and 0 <= w[3] < 64) for w in ws):
+            die("%s: in-block loop index outside the block" % rn)
+        lists.append([(w[1], w[3], w[4]) for w in ws])
+    # every coefficient statement of the routine must be inside one of the interpreted loops
+    nstm = len(re.findall(r"dst_ptr\s*\[[^\]]*\]\s*=|\*dst_ptr\+\+\s*=", bd))
+    covered = sum(len(re.findall(r"dst_ptr\s*\[[^\]]*\]\s*=|\*dst_ptr\+\+\s*=", stmt_after(bd, mm.end())))
+                  for mm in re.finditer(r"\bsrc_ptr\s*=[^;]*;\s*(?=for\b)", bd))
+    if nstm != covered or not lists:
+        die("%s: %d coefficient statements, only %d inside recognised in-block loops" % (rn, nstm, covered))
+    inblock.append((rn, lists))
+# the swap loop of do_flip_h_no_crop
+bd = func_body(transupp_c, "do_flip_h_no_crop")
+mm = re.search(r"\bptr2\s*=[^;]*;\s*(?=for\b)", bd)
+if not mm:
+    die("do_flip_h_no_crop: swap loop not found")
+it = Interp(tokenize(stmt_after(bd, mm.end())), "do_flip_h_no_crop")
+it.stmt()
+sw1 = [(w[1], w[3], w[4]) for w in it.writes if w[0] == "ptr1" and w[2] == "ptr2"]
+sw2 = [(w[1], w[3], w[4]) for w in it.writes if w[0] == "ptr2" and w[2] == "ptr1"]
+if len(sw1) + len(sw2) != len(it.writes) or len(sw1) != 64 or len(sw2) != 64:
+    die("do_flip_h_no_crop: swap loop does not exchange the two blocks element by element")
+inblock.append(("do_flip_h_no_crop", [sw1, sw2]))
+
+# ---- features of transupp.c that tj3Transform can never request
+tj_unreach = [(w, len(re.findall(r"\b%s\b" % w, tj_c))) for w in
+              ("JCROP_FORCE", "JCROP_REFLECT", "JXFORM_WIPE", "JXFORM_DROP", "drop_ptr", "drop_coef_arrays", "JCROP_NEG")]
+tj_sets = sorted(set(re.findall(r"xinfo\[i\]\.(\w+)\s*=", tj_c)))
+
 # ---- adjust_parameters: who calls transpose_critical_parameters
 ac = switch_cases(func_body(transupp_c, "jtransform_adjust_parameters"))
 crit = [(xn, "transpose_critical_parameters" in ac.get(jxn, ac.get("default", ""))) for jxn, xn in XOP.items()]
@@ -293,6 +577,14 @@ out.append("(* routine, source dimension of MCU_cols, of MCU_rows; routine, colu
 out.append("Definition gen_mcu_dims : list (string * option srcdim * option srcdim) := [%s]." % "; ".join(
     '("%s"%%string, %s, %s)' % (r, dim(a), dim(bb)) for r, a, bb in mcu_dims))
 out.append("Definition gen_blockwise : list (string * bool) := [%s]." % "; ".join('("%s"%%string, %s)' % (r, b(v)) for r, v in loop_shape))
+out.append("Local Open Scope nat_scope.")
+out.append("(* in-block loops in order of appearance per routine: (destination index, source index, negated) in execution order *)")
+out.append("Definition gen_inblock : list (string * list (list (nat * nat * bool))) := [%s]." % ";\n  ".join(
+    '("%s"%%string, [%s])' % (r, "; ".join("[%s]" % "; ".join("(%d, %d, %s)" % (a, c, b(n)) for a, c, n in l) for l in ls)) for r, ls in inblock))
+out.append("(* occurrences in turbojpeg.c of the transupp.c features outside the model; fields of jpeg_transform_info it assigns *)")
+out.append("Definition gen_tj_unreachable : list (string * nat) := [%s]." % "; ".join('("%s"%%string, %d)' % e for e in tj_unreach))
+out.append("Local Close Scope nat_scope.")
+out.append("Definition gen_tj_xinfo_fields : list string := [%s]." % "; ".join('"%s"%%string' % f for f in tj_sets))
 out.append("(* TJSAMP order: luminance factors, (tjMCUWidth, tjMCUHeight), luminance factors of getDstSubsamp under transposition *)")
 rows = []
 for i, sname in enumerate(samp):
